@@ -120,7 +120,13 @@ func ReferenceRun(a *App, tx *rctypes.Trx, proposer []byte, height, unixTime int
 	st.Prepare(h, txidx)
 	snap := st.Snapshot()
 	before := st.Copy()
-	gp := new(ethcore.GasPool).AddGas(refGasLimit)
+	// the block's gas pool: what the transactions executed so far in this block have left (the block gas limit is a
+	// rule of the EVM's state transition, so the reference applies it too)
+	left := refGasLimit
+	if g := a.Core.VerifView().EVM.VerifVolatile().GasPool; g > 0 && g < refGasLimit {
+		left = g
+	}
+	gp := new(ethcore.GasPool).AddGas(left)
 	// standard rule: the sender must be able to pay gas limit x price plus the value. (The message carries a zero
 	// fee cap because rigo-go credits fees to the proposer natively at the end of the block, not inside the EVM;
 	// with a zero fee cap go-ethereum's own balance check only covers the value.)
